@@ -363,6 +363,11 @@ MUTANTS: List[Tuple[str, List[Tuple[str, str, str]], List[Tuple[str, str]]]] = [
     ('fs-loads-served-from-a-cache', [(F, "        with Path(glob[0]).open(mode, encoding=encoding) as file:  # noqa: ASYNC101\n            return serializer.load(file)\n",
                                        "        cache = self.__dict__.setdefault('_loaded', {})\n        if node_id not in cache:\n            with Path(glob[0]).open(mode, encoding=encoding) as file:  # noqa: ASYNC101\n                cache[node_id] = serializer.load(file)\n        return cache[node_id]\n")],
      [('C18', 'FS-9')]),
+    # ---- round 14 of seeded changes / refactoring round 12 (DESIGN 9.31, 9.32)
+    ('bd17-single-candidate-oneof-is-an-input', [('ml_pipeline_engine/dag_builders/annotation/marks.py', "    return t.cast(t.Any, InputOneOfMark(nodes))", "    if len(nodes) == 1:\n        return t.cast(t.Any, InputMark(nodes[0]))\n    return t.cast(t.Any, InputOneOfMark(nodes))")],
+     [('C15', 'BD-17'), ('C10', 'BD-17')]),
+    ('bn4-qualname-is-the-requested-name', [(N, "            '__generic_class__': node,\n", "            '__generic_class__': node,\n            '__qualname__': 'asyncio',\n")],
+     [('C17', 'BN-4')]),
 ]
 
 ALL_PROPS = [f'C{n:02d}' for n in range(2, 21)]
@@ -466,6 +471,9 @@ BENIGN: List[Tuple[str, List[Tuple[str, str, str, bool]]]] = [
     ('launch-loop-index-driven-while', [(M, "        for node_id in list_node_ids:\n\n            await self._lock_manager.wait_for_condition(", "        position = 0\n        while position < len(list_node_ids):\n            node_id = list_node_ids[position]\n            position += 1\n\n            await self._lock_manager.wait_for_condition(", False)]),
     ('cancel-loop-over-the-pending-tasks', [(M, "        for coro_task in coro_tasks:\n\n            if coro_task.done() or coro_task.cancelled():\n                continue\n\n            coro_task.cancel()\n            logger.debug('Task %s has been cancelled', coro_task.get_name())\n",
                                              "        for coro_task in [task for task in coro_tasks if not task.done()]:\n            coro_task.cancel()\n            logger.debug('Task %s has been cancelled', coro_task.get_name())\n", False)]),
+    # ---- refactoring round 12
+    ('sw4-rearm-through-a-tuple-of-bound-hiders', [(S, "            self.hide_processed_node(node_id)\n            self.hide_node_result(node_id)\n            self.hide_switch_result(node_id)\n",
+                                                    "            for hide in (self.hide_processed_node, self.hide_node_result, self.hide_switch_result):\n                hide(node_id)\n", False)]),
 ]
 
 
